@@ -118,6 +118,8 @@ SelOps     == {"selplane", "selrange", "getsub", "getregion", "pad", "resample"}
 PersistOps == {"h5", "ovf", "vtk", "xarray"}
 ValidOps   == {"setvalid", "mutatevalid"}
 UpdateOps  == {"updateconst", "setarray", "fromfield"}
+(* queries: the heap stays as it is, the answer is the outcome ("true" / "false"; "reject" when the library raises) *)
+QueryOps   == {"q_meshclose", "q_fieldclose", "q_regionin", "q_aligned"}
 FieldMakers == AlgebraOps \cup SelOps \cup PersistOps \cup {"diff", "mkfield", "integrate"}
 
 (* ---- variables of the user ------------------------------------------------------------- *)
@@ -378,6 +380,8 @@ InModel(h, rts, c) ==
                            /\ ~CentreOnSrcFace(h, o, g)
                 [] c.op = "setsub" -> Len(c.a.a) = nd /\ Len(c.a.b) = nd /\ \A d \in 1 .. nd : 0 <= c.a.a[d] /\ c.a.a[d] <= c.a.b[d] /\ c.a.b[d] <= n[d]
                 [] c.op = "mulnum" -> fo.vx => (MaxAbs(fo.arr) <= 100000000 /\ Abs(c.a.c) <= 10)
+                [] c.op \in QueryOps -> /\ c.y \in DOMAIN rts /\ IsF(h, rts[c.y]) /\ Len(FN(h, rts[c.y])) = nd
+                                        /\ (c.op = "q_fieldclose" => fo.vx /\ h[rts[c.y]].vx)
                 [] c.op = "comp" -> fo.lab # <<>> /\ c.a.c \in 1 .. fo.nv
                 [] c.op = "lshift" ->
                       /\ c.y \in DOMAIN rts /\ IsF(h, rts[c.y])
@@ -442,6 +446,19 @@ Apply(h, rts, c) ==
            LET m == h[o].mesh  bx == SetSubBox(h, m, c.a)  ro == h[h[m].region]  id == MaxSet(DOMAIN h) + 1 IN
            IF ~SetSubAccepted(h, m, c.a) THEN Rej(h, rts)
            ELSE Ok([Ext(h, id, DReg(bx.lo, bx.hi, ro.units, ro.dims)) EXCEPT ![m].sub = <<id>>, ![m].names = <<"t">>], rts)
+     [] c.op \in QueryOps ->
+           (* f.mesh.allclose(g.mesh), f.allclose(g), g.mesh.region in f.mesh.region, f.mesh.is_aligned(g.mesh): on lattice   *)
+           (* coordinates the tolerances of the library (1e-12 relative) decide nothing, the answers are exact                *)
+           LET g == rts[c.y]
+               sameDims  == FR(h, o).dims = FR(h, g).dims
+               meshClose == FR(h, o).lo = FR(h, g).lo /\ FR(h, o).hi = FR(h, g).hi /\ FN(h, o) = FN(h, g)
+               ans == CASE c.op = "q_meshclose"  -> meshClose
+                        [] c.op = "q_fieldclose" -> meshClose /\ h[o].nv = h[g].nv /\ h[o].arr = h[g].arr
+                        [] c.op = "q_regionin"   -> Covers(h, o, g)
+                        [] c.op = "q_aligned"    -> /\ \A d \in DOMAIN FN(h, o) : CellQ(h, o, d) = CellQ(h, g, d)
+                                                    /\ \A d \in DOMAIN FN(h, o) : RIsInt(RDiv(RSub(FR(h, g).lo[d], FR(h, o).lo[d]), CellQ(h, o, d)))
+           IN IF c.op \in {"q_meshclose", "q_fieldclose"} /\ ~sameDims THEN Rej(h, rts)
+              ELSE [heap |-> h, roots |-> rts, outcome |-> IF ans THEN "true" ELSE "false"]
      [] c.op = "mulnum" ->
            Bound(AllocF(h, LAMBDA fid : [h[o] EXCEPT !.vo = fid, !.arr = [k \in DOMAIN @ |-> [cc \in 1 .. h[o].nv |-> @[k][cc] * c.a.c]]]), rts, c.dst)
      [] c.op = "comp" ->
@@ -645,6 +662,8 @@ P_SetSub(h, rts, h2, rts2, c) ==
       /\ h2[h2[m].sub[1]].lo = bx.lo /\ h2[h2[m].sub[1]].hi = bx.hi
       /\ h2[m].n = h[m].n /\ h2[h2[m].region] = h[h[m].region]
       /\ SubsWellFormed(h2, m)
+(* a query answers and modifies nothing *)
+P_QueryPure(h, rts, h2, rts2, c) == c.op \in QueryOps => h2 = h /\ rts2 = rts
 (* C10 / C09 / C16 / C17: a write + read round trip is the identity on the attributes the property lists *)
 DeepSubs(h, m) == [s \in DOMAIN h[m].sub |-> [name |-> h[m].names[s], lo |-> h[h[m].sub[s]].lo, hi |-> h[h[m].sub[s]].hi]]
 P_Persist(h, rts, h2, rts2, c) ==
@@ -690,13 +709,14 @@ StepAll(h, rts, h2, rts2, c) ==
    /\ P_PositionsKept(h, rts, h2, rts2, c) /\ P_CellAligned(h, rts, h2, rts2, c) /\ P_SelSubregions(h, rts, h2, rts2, c)
    /\ P_Persist(h, rts, h2, rts2, c) /\ P_InplaceEqualsCopy(h, rts, h2, rts2, c) /\ P_InplaceReturnsSelf(h, rts, h2, rts2, c)
    /\ P_AffineExact(h, rts, h2, rts2, c) /\ P_Integrate(h, rts, h2, rts2, c) /\ P_SetSub(h, rts, h2, rts2, c)
+   /\ P_QueryPure(h, rts, h2, rts2, c)
 
 
 (* the step clauses as a set of names of those that fail: `viol` holds it for the last call, so that every   *)
 (* clause is also a plain state invariant (TLC evaluates unprimed operator applications much faster)          *)
 ClauseNames == {"DF_RejectUnchanged", "DF_OperandsUnchanged", "DF_ValidityRule", "DF_SetValid", "DF_Update", "DF_Cellwise",
                 "DF_PositionsKept", "DF_CellAligned", "DF_SelSubregions", "DF_Persist", "DF_InplaceEqualsCopy",
-                "DF_InplaceReturnsSelf", "DF_AffineExact", "DF_Integrate", "DF_SetSub"}
+                "DF_InplaceReturnsSelf", "DF_AffineExact", "DF_Integrate", "DF_SetSub", "DF_QueryPure"}
 ClauseHolds(nm, h, rts, h2, rts2, c) ==
    CASE nm = "DF_RejectUnchanged"    -> P_RejectUnchanged(h, rts, h2, rts2, c)
      [] nm = "DF_OperandsUnchanged"  -> P_OperandsUnchanged(h, rts, h2, rts2, c)
@@ -713,6 +733,7 @@ ClauseHolds(nm, h, rts, h2, rts2, c) ==
      [] nm = "DF_AffineExact"        -> P_AffineExact(h, rts, h2, rts2, c)
      [] nm = "DF_Integrate"          -> P_Integrate(h, rts, h2, rts2, c)
      [] nm = "DF_SetSub"             -> P_SetSub(h, rts, h2, rts2, c)
+     [] nm = "DF_QueryPure"          -> P_QueryPure(h, rts, h2, rts2, c)
 Failed(h, rts, h2, rts2, c) == {nm \in ClauseNames : ~ClauseHolds(nm, h, rts, h2, rts2, c)}
 
 (* ---- the actions: one named action per public call ------------------------------------------- *)
@@ -770,6 +791,10 @@ SubBoxes(n) == {[a |-> [d \in DOMAIN n |-> 0], b |-> [d \in DOMAIN n |-> IF n[d]
                \cup (IF Rich THEN {[a |-> [d \in DOMAIN n |-> n[d] - 1], b |-> [d \in DOMAIN n |-> n[d]], sh |-> FALSE],
                                    [a |-> [d \in DOMAIN n |-> n[d] - 1], b |-> [d \in DOMAIN n |-> n[d] - 1], sh |-> FALSE]} ELSE {})
 SetSub    == En("SetSub") /\ \E x \in FR0 : \E bx \in SubBoxes(FN(heap, roots[x])) : Do(MkCall("setsub", x, "", x, "mesh", TRUE, bx))
+QMeshClose  == En("QMeshClose") /\ \E x \in FR0, y \in FR0 : Do(MkCall("q_meshclose", x, y, x, "self", FALSE, NoA))
+QFieldClose == En("QFieldClose") /\ \E x \in FR0, y \in FR0 : Do(MkCall("q_fieldclose", x, y, x, "self", FALSE, NoA))
+QRegionIn   == En("QRegionIn") /\ \E x \in FR0, y \in FR0 : Do(MkCall("q_regionin", x, y, x, "self", FALSE, NoA))
+QAligned    == En("QAligned") /\ \E x \in FR0, y \in FR0 : Do(MkCall("q_aligned", x, y, x, "self", FALSE, NoA))
 LShift    == En("LShift") /\ \E x \in FR0, y \in FR0 : \E dst \in Dsts(roots, x) : Do(MkCall("lshift", x, y, dst, "self", FALSE, NoA))
 Diff      == En("Diff") /\ \E x \in FR0 : \E d \in 1 .. NDx(x), dst \in Dsts(roots, x) : Do(MkCall("diff", x, "", dst, "self", FALSE, [d |-> d]))
 SetValidArray == En("SetValidArray") /\ \E x \in FR0, b \in Masks : Do(MkCall("setvalid", x, "", x, "self", TRUE, [kind |-> "array", mask |-> MaskOf(b, Len(heap[roots[x]].valid))]))
@@ -806,6 +831,7 @@ Init == \E sc \in Scenarios :
 Next == \/ Translate \/ Scale \/ MeshRotate90 \/ FieldRotate90 \/ MkField
         \/ Neg \/ Pos \/ Abs_ \/ Add \/ Mul \/ MulNum \/ Comp \/ LShift \/ Diff
         \/ Sub \/ DotP \/ CrossP \/ Norm \/ Orientation \/ Integrate \/ FromField \/ SetSub
+        \/ QMeshClose \/ QFieldClose \/ QRegionIn \/ QAligned
         \/ SetValidArray \/ SetValidNorm \/ SetValidNone \/ MutateValid \/ UpdateConst \/ SetArray
         \/ SelPlane \/ SelRange \/ GetSub \/ GetRegion \/ Pad \/ Resample
         \/ H5 \/ Ovf \/ Vtk \/ Xarray
@@ -827,6 +853,7 @@ DF_InplaceReturnsSelf == [][P_InplaceReturnsSelf(heap, roots, heap', roots', Las
 DF_AffineExact        == [][P_AffineExact(heap, roots, heap', roots', Last')]_vars
 DF_Integrate          == [][P_Integrate(heap, roots, heap', roots', Last')]_vars
 DF_SetSub             == [][P_SetSub(heap, roots, heap', roots', Last')]_vars
+DF_QueryPure          == [][P_QueryPure(heap, roots, heap', roots', Last')]_vars
 (* the same clauses as state invariants over `viol` *)
 DF_RejectUnchanged_S    == "DF_RejectUnchanged" \notin viol
 DF_OperandsUnchanged_S  == "DF_OperandsUnchanged" \notin viol
@@ -843,4 +870,5 @@ DF_InplaceReturnsSelf_S == "DF_InplaceReturnsSelf" \notin viol
 DF_AffineExact_S        == "DF_AffineExact" \notin viol
 DF_Integrate_S          == "DF_Integrate" \notin viol
 DF_SetSub_S             == "DF_SetSub" \notin viol
+DF_QueryPure_S          == "DF_QueryPure" \notin viol
 =============================================================================
